@@ -13,7 +13,7 @@ from __future__ import annotations
 
 import ast
 
-from sa.astutil import dotted, methods_of
+from sa.astutil import dotted, params_of, methods_of
 from sa.flow import walk_shallow
 from sa.repo import norm
 
@@ -99,14 +99,22 @@ def run(ctx):
                     call = f
     ctx.require(call is not None, 'anchor vanished: TypeHint metaclass __call__')
     cs = [c for c in walk_shallow(call) if isinstance(c, ast.Call) and isinstance(c.func, ast.Attribute)
-          and c.func.attr == 'cache_or_get_cached_func_return_passed_arg' and dotted(c.func.value) == '_HINT_TO_WRAPPER']
-    ok = len(cs) == 1 and {k.arg: norm(k.value) for k in cs[0].keywords}.get('key') == 'hint' \
-        and {k.arg: norm(k.value) for k in cs[0].keywords}.get('arg') == 'hint'
+          and c.func.attr == 'cache_or_get_cached_func_return_passed_arg' and isinstance(c.func.value, ast.Name)]
+    hp = params_of(call)[1] if len(params_of(call)) > 1 else 'hint'
+    ok = len(cs) == 1 and {k.arg: norm(k.value) for k in cs[0].keywords}.get('key') == hp \
+        and {k.arg: norm(k.value) for k in cs[0].keywords}.get('arg') == hp
     ctx.ob('C19.R4', 'TypeHint.__call__:cached-by-hint', mm.where(call), 'the wrapper cache is keyed by the hint itself', ok,
            norm(cs[0])[:120] if cs else 'no cache call')
-    tab = [st for st in mm.assigns.get('_HINT_TO_WRAPPER', [])]
-    ok = bool(tab) and 'lock_type' in norm(tab[-1].value)
-    ctx.ob('C19.R4', '_HINT_TO_WRAPPER:locked', mm.where(tab[-1]) if tab else mm.where(call), 'the cache carries its own lock', ok, '')
+    # the cache object, whatever it is called and wherever it is defined (here or in a sibling module)
+    tab = []
+    if cs:
+        nm = cs[0].func.value.id
+        r = repo.resolve_name(mm, call, nm)
+        dm = repo.modules.get(r.module) if getattr(r, 'module', None) else None
+        tab = [(dm, st) for st in (dm.assigns.get(r.name, []) if dm is not None else [])] or [(mm, st) for st in mm.assigns.get(nm, [])]
+    ok = bool(tab) and isinstance(tab[-1][1].value, ast.Call) and any(k.arg == 'lock_type' for k in tab[-1][1].value.keywords)
+    ctx.ob('C19.R4', 'wrapper-cache:locked', tab[-1][0].where(tab[-1][1]) if tab else mm.where(call), 'the cache carries its own lock', ok,
+           norm(tab[-1][1])[:100] if tab else 'cache definition not found')
     um = repo.mod('beartype._util.cache.map.utilmapunbounded')
     cf = repo.find_def(um.name, 'CacheUnboundedStrong.cache_or_get_cached_func_return_passed_arg')
     ok = any(isinstance(t, ast.Try) and any(dotted(h.type) == 'TypeError' and any(
